@@ -1,6 +1,7 @@
 package main
 
 import (
+	"errors"
 	"fmt"
 	"math/rand"
 	"reflect"
@@ -286,4 +287,167 @@ func touchInputSet(w *World, f *am.Func, call int, r *rand.Rand) bool {
 		ok = o.Class == ClsOK
 	}()
 	return ok
+}
+
+// I0twin is a distinct interface type with exactly I0's method set: each
+// implements the other.
+type I0twin interface{ I0tok() int64 }
+
+type twinIn struct {
+	am.Struct
+	X I0
+}
+type twinInRev struct {
+	am.Struct
+	X I0twin
+}
+type twinInH struct {
+	am.Struct
+	X I0
+	H T5 `argmapper:",typeOnly"`
+}
+
+// runTwinInterfaces: a parameter of interface type A whose only source is a
+// converter output statically typed as a DIFFERENT interface type B with the
+// same method set (B implements A and A implements B). The parameter is
+// derivable: the call succeeds with the converter's value (C05 scope (a));
+// next to a hopeless parameter the unsatisfied-argument error lists the
+// hopeless one only (C13). Repeated for map order.
+func runTwinInterfaces(c *CaseCtx, r *rand.Rand, withHopeless bool) (res CaseResult) {
+	res.NonTrivial = true
+	shape := r.Intn(3)
+	res.Key = fmt.Sprintf("twin-interfaces shape=%d hopeless=%v", shape, withHopeless)
+	res.obs("family.twin-interfaces", 1)
+	det := map[string]interface{}{"case": res.Key}
+	var got int64
+	ran := 0
+	var target, conv interface{}
+	switch {
+	case withHopeless:
+		target = func(in twinInH) { ran++; got = in.X.I0tok() }
+		conv = func(a T3) I0twin { return T0{ID: a.ID + 1000} }
+	case shape == 0:
+		target = func(x I0) { ran++; got = x.I0tok() }
+		conv = func(a T3) I0twin { return T0{ID: a.ID + 1000} }
+	case shape == 1:
+		target = func(in twinIn) { ran++; got = in.X.I0tok() }
+		conv = func(a T3) (I0twin, error) { return T1{ID: a.ID + 1000}, nil }
+	default:
+		target = func(in twinInRev) { ran++; got = in.X.I0tok() }
+		conv = func(a T3) I0 { return T0{ID: a.ID + 1000} }
+	}
+	f, err := am.NewFunc(target)
+	if err != nil {
+		res.violate("C14", "accepted-shape-rejected", "NewFunc rejected the target: "+err.Error(), det)
+		return res
+	}
+	reps := tierReps(c.Tier, 12, 30)
+	for k := 1; k <= reps; k++ {
+		ran, got = 0, -1
+		var rr am.Result
+		func() {
+			defer func() {
+				if p := recover(); p != nil {
+					res.violate("C06", "panic/"+crashKey(fmt.Sprint(p)), fmt.Sprintf("Call panicked: %v", p), det)
+				}
+			}()
+			rr = f.Call(am.Typed(T3{ID: int64(k)}), am.Converter(conv))
+		}()
+		res.Evals++
+		if !withHopeless {
+			if rr.Err() != nil || ran != 1 || got != int64(k)+1000 {
+				res.violate("C05", "incomplete/twin-interfaces", fmt.Sprintf("the interface parameter is derivable through a single-input converter whose output has an interface type with the same method set: Err()=%v target ran %d times, got #%d want #%d", firstLine(errStr(rr.Err())), ran, got, int64(k)+1000), det)
+				break
+			}
+			continue
+		}
+		var ue *am.ErrArgumentUnsatisfied
+		if rr.Err() == nil || !errors.As(rr.Err(), &ue) || ran != 0 {
+			res.violate("C13", "wrong-error-type", fmt.Sprintf("hopeless parameter T5: Err()=%v target ran %d times", rr.Err(), ran), det)
+			break
+		}
+		for _, a := range ue.Args {
+			if a.Type != types[5] {
+				res.violate("C13", "args-derivable", fmt.Sprintf("Args lists %s:%v although it is derivable (only T5 is hopeless)", a.Name, a.Type), det)
+			}
+		}
+		if len(ue.Args) == 0 {
+			res.violate("C13", "args-missing-hopeless", "Args does not contain the hopeless parameter T5", det)
+		}
+		res.obs("errors_inspected", 1)
+	}
+	res.Sample = det
+	return res
+}
+
+// Two converters whose Go function types are different types that PRINT
+// identically: each takes a function-local interface type called "Source".
+func sameNamedConvA(execs *int) interface{} {
+	type Source interface{ I0tok() int64 }
+	return func(s Source) T4 { *execs++; return T4{ID: 7000 + s.I0tok()} }
+}
+
+func sameNamedConvB(execs *int) interface{} {
+	type Source interface{ I0tok() int64 }
+	return func(s Source) T4 { *execs++; return T4{ID: 8000 + s.I0tok()} }
+}
+
+// runC09SameNamedTypes: Redefine over a converter set in which two function
+// types share their printed name. Redefine is planning only: no converter
+// body may run, and a run-once converter must still execute on its first
+// real use afterwards.
+func runC09SameNamedTypes(c *CaseCtx, r *rand.Rand) (res CaseResult) {
+	res.NonTrivial = true
+	once := r.Intn(2) == 0
+	res.Key = fmt.Sprintf("same-named-function-types once=%v", once)
+	res.obs("family.same-named-function-types", 1)
+	det := map[string]interface{}{"case": res.Key}
+	execA, execB, ranT := 0, 0, 0
+	var opts []am.Arg
+	if once {
+		opts = append(opts, am.FuncOnce())
+	}
+	fa, err1 := am.NewFunc(sameNamedConvA(&execA), opts...)
+	fb, err2 := am.NewFunc(sameNamedConvB(&execB), opts...)
+	target, err3 := am.NewFunc(func(x T4) { ranT++ })
+	if err1 != nil || err2 != nil || err3 != nil {
+		res.Skip = "newfunc"
+		return res
+	}
+	if reflect.TypeOf(fa.Func()) == reflect.TypeOf(fb.Func()) || reflect.TypeOf(fa.Func()).String() != reflect.TypeOf(fb.Func()).String() {
+		res.Skip = "types-not-as-intended"
+		return res
+	}
+	n := tierReps(c.Tier, 40, 120)
+	for k := 0; k < n; k++ {
+		args := []am.Arg{am.ConverterFunc(fa), am.ConverterFunc(fb)}
+		if r.Intn(2) == 0 {
+			args[0], args[1] = args[1], args[0]
+		}
+		if r.Intn(3) == 0 {
+			args = append(args, am.FilterInput(am.FilterType(types[0])))
+		}
+		func() {
+			defer func() {
+				if p := recover(); p != nil {
+					res.violate("C06", "panic/redefine-"+crashKey(fmt.Sprint(p)), fmt.Sprintf("Redefine panicked: %v", p), det)
+				}
+			}()
+			target.Redefine(args...)
+		}()
+		res.Evals++
+		if execA+execB+ranT > 0 {
+			res.violate("C09", "executed-during-redefine", fmt.Sprintf("after %d Redefine calls: converter A ran %d times, converter B %d times, the target %d times", k+1, execA, execB, ranT), det)
+			return res
+		}
+	}
+	res.obs("redefines", int64(n))
+	// first real use
+	rr := target.Call(am.Typed(T0{ID: 5}), am.ConverterFunc(fa), am.ConverterFunc(fb))
+	res.Evals++
+	if rr.Err() == nil && (execA+execB != 1 || ranT != 1) {
+		res.violate("C09", "not-as-before", fmt.Sprintf("first real call after planning: converter A ran %d times, B %d times, target %d times (a run-once converter must still execute on its first real use)", execA, execB, ranT), det)
+	}
+	res.Sample = det
+	return res
 }
